@@ -3,26 +3,27 @@ from __future__ import annotations
 
 import ast
 import re
+from dataclasses import replace
 from typing import Any
 
 from jinja2 import nodes
 
 from .. import lexstate as LX
 from .. import tplq
-from ..astutil import call_name, cfg_of, norm, short, stmt_of, where
+from ..astutil import (Locals, anon, call_name, cfg_of, constructs_error, local_names, names_in, norm, receivers, region, short, stmt_calls,
+                       stmt_of, where)
 from ..cfg import ENTRY, EXIT, walk_own
-from ..charclass import S, members
+from ..charclass import S
 from ..core import PKG, Report
 from ..jinja_interp import expr_text
-from ..pe import PathEnum, StringCollector, fstring_text
+from ..pe import StringCollector
 from ..skelscan import strip_strings
-from .effects import effect_sites
-from .registries import check_param_conflicts
+from .effects import effect_sites, operand_av
 
 LEVEL = ("necessary conditions, each of which yields a SyntaxError / NameError / ImportError when broken (compiling and importing "
          "every output is not decided): import closure per property kind x requiredness x host (names used by the kind's macros "
          "and type strings that belong to the import universe are imported by the host header or the kind's get_imports); the "
-         "check_ helper is named by one method at definition, import and use; lazily imported model classes are imported in "
+         "check_ helper is named by one expression of the enum at definition, import and use; lazily imported model classes are imported in "
          "every function that uses them at run time; evaluated annotations are quoted; attribute declaration order (truth "
          "table); lexical neutrality of every template block; dispatch totality; names never start with an underscore; every rename "
          "made to resolve an argument-name conflict is re-checked; directories that receive document-named modules are rebuilt "
@@ -190,18 +191,21 @@ def run(rep: Report, ctx: Any) -> str:
     it, ji = ctx.flow
     rep.rule("R01.1", "import closure: for every property kind, requiredness and host module, every name of the import universe used by "
                       "the kind's macros or type strings is imported by the host header or by the kind's get_imports")
-    rep.rule("R01.1b", "the literal-enum helper check_<name> is named by the same method where it is defined, imported and called")
-    rep.rule("R01.2", "lazy-import placement: every function of the model class whose inlined macros can use a model class at run time "
-                      "starts by emitting model.lazy_imports")
+    rep.rule("R01.1b", "the literal-enum helper check_<name> is named by the same expression of the enum where it is defined, imported and "
+                       "called, and imported from the module the enum is written to")
+    rep.rule("R01.2", "lazy-import placement: every function of the model class into which macros of property templates are expanded emits "
+                      "model.lazy_imports before the first of them; at module level the same imports stand under `if TYPE_CHECKING:`")
     rep.rule("R01.3", "evaluated annotations that can denote a lazily imported class are quoted")
-    rep.rule("R01.4", "declaration order: the two class-body loops are complementary and exhaustive over (default is none, required), the "
-                      "no-default loop first; positional parameters do not carry defaults out of order")
+    rep.rule("R01.4", "declaration order: the declaration passes of the class body partition the attributes over (default is none, required), "
+                      "no pass mixes attributes with and without default, passes without default come first; positional parameters do not "
+                      "carry defaults out of order")
     rep.rule("R01.5", "lexical neutrality: every template block leaves the lexer of the generated language in the state it found it; no "
                       "newline-inserting filter inside a single-line string")
     rep.rule("R01.6", "dispatch totality (shared with C06 R06.3)")
     rep.rule("R01.7", "a name that starts with an underscore never yields a python name that starts with one")
     rep.rule("R01.8", "argument lists have no duplicate: every rename made while resolving parameter / attribute name conflicts is followed "
-                      "by a re-check (shared with R09.3 / R18.2)")
+                      "by a re-check (parameters: recorded in the set whose test decides between a further pass and success; attributes: "
+                      "equality test of the two python names)")
     rep.rule("R01.9", "no stale module: every directory that receives files whose names depend on the document is emptied earlier in the "
                       "same run, on every path")
 
@@ -220,8 +224,8 @@ def run(rep: Report, ctx: Any) -> str:
         return out
 
     hdr = {"model": header_names(mt), "endpoint": header_names(et)}
-    rep.floor("model_header_imports", len(hdr["model"]), 8)
-    rep.floor("endpoint_header_imports", len(hdr["endpoint"]), 8)
+    rep.floor("model_header_imports", len(hdr["model"]), 5)
+    rep.floor("endpoint_header_imports", len(hdr["endpoint"]), 5)
     sc = PathStrings(ix)
     proto = ix.cls("PropertyProtocol")
     universe = set(hdr["model"]) | set(hdr["endpoint"])
@@ -237,16 +241,14 @@ def run(rep: Report, ctx: Any) -> str:
             kind_imports[(c.name, req)] = names
             universe |= names
     universe -= {"H"}
-    rep.floor("import_universe", len(universe), 25)
+    rep.floor("import_universe", len(universe), 13)
 
     # ---- R01.1 ------------------------------------------------------------------------------------------------------------
-    pe = PathEnum(ix)
     n_ob = 0
     macro_sets = {"model": ("construct", "construct_function", "check_type_for_construct", "transform", "transform_multipart"),
                   "endpoint": ("construct", "construct_function", "check_type_for_construct", "transform", "transform_header",
                                "transform_multipart_body")}
     shared = jx.templates.get("property_templates/property_macros.py.jinja")
-    helpers = jx.templates.get("property_templates/helpers.jinja")
     for c in ix.property_classes():
         tname = ix.const_str(*_cv(ix, c, "template")) or ""
         ti = jx.templates.get("property_templates/" + tname)
@@ -277,9 +279,12 @@ def run(rep: Report, ctx: Any) -> str:
                             m2 = src_t.macros.get(mm)
                             if m2 is None:
                                 continue
+                            sdefs = _set_defs(src_t.tree)
                             for fr in tplq.frags(m2.body):
                                 if fr.kind != "data":
                                     continue
+                                if fr.guard_nodes and sdefs:  # a condition named by a `set` variable is the condition it is set to
+                                    fr = replace(fr, guard_nodes=tuple(_tsubst(g_, sdefs) for g_ in fr.guard_nodes))
                                 names_ = tplq.guard_atoms(fr)
                                 # 'Unset' in get_type_strings_in_union(...)  <=>  not required (R10.1 decides that equivalence)
                                 unset_atoms = [a for a in names_ if "'Unset' in property.get_type_strings_in_union" in a]
@@ -301,116 +306,155 @@ def run(rep: Report, ctx: Any) -> str:
                 rep.check(not missing, "R01.1", f"{c.name}[required={req}]@{host}",
                           f"generated {host} modules using a {'required' if req else 'optional'} {c.name} refer to {missing} without importing "
                           "it (NameError at import or call time)", where=f"{c.module.rel}:{c.node.lineno}", lhs=sorted(need), rhs=sorted(have & need))
-    rep.floor("import_closure_obligations", n_ob, 60)
+    rep.floor("import_closure_obligations", n_ob, 32)
 
     # ---- R01.1b --------------------------------------------------------------------------------------------------------------
-    le = ix.cls("LiteralEnumProperty")
-    gi = le.methods.get("get_imports")
-    rep.require(gi, "LiteralEnumProperty.get_imports")
-    ok_imp = False
-    for n in ast.walk(gi.node):
-        if isinstance(n, ast.JoinedStr):
-            for i, v in enumerate(n.values):
-                if isinstance(v, ast.Constant) and str(v.value).endswith("check_") and i + 1 < len(n.values):
-                    nxt = n.values[i + 1]
-                    ok_imp = isinstance(nxt, ast.FormattedValue) and norm(nxt.value) == "self.get_class_name_snake_case()"
-    use_ok = def_ok = False
-    lt = jx.templates.get("property_templates/literal_enum_property.py.jinja")
-    for fr_prev, fr in _pairs(list(tplq.macro_frags(lt, "construct_function"))):
-        if fr_prev.kind == "data" and fr_prev.text.rstrip().endswith("check_") and fr.kind == "expr":
-            use_ok = fr.text == "property.get_class_name_snake_case()"
-    let = jx.templates.get("literal_enum.py.jinja")
-    for fr_prev, fr in _pairs(list(tplq.frags(let.tree.body))):
-        if fr_prev.kind == "data" and fr_prev.text.rstrip().endswith("def check_") and fr.kind == "expr":
-            def_ok = fr.text == "enum.get_class_name_snake_case()"
-    rep.check(ok_imp and use_ok and def_ok, "R01.1b", "literal-enum::check-helper-name",
-              f"the check_ helper is named differently where it is defined ({def_ok}), imported ({ok_imp}) and called ({use_ok}): ImportError "
-              "for class names whose module name differs from their snake-cased name", where(gi, gi.node), lhs=[def_ok, ok_imp, use_ok],
-              rhs="get_class_name_snake_case() at all three")
-    # module of the import = module the file is written to
-    mods = {norm(v.value) for n in ast.walk(gi.node) if isinstance(n, ast.JoinedStr) for v in n.values if isinstance(v, ast.FormattedValue)
-            and "module_name" in norm(v.value)}
-    rep.check(mods == {"self.class_info.module_name"}, "R01.1b", "literal-enum::import-module", "helper imported from another module than the enum",
-              where(gi, gi.node), lhs=sorted(mods), rhs=["self.class_info.module_name"])
+    _check_helper_name(rep, ctx)
 
     # ---- R01.2 ---------------------------------------------------------------------------------------------------------------
+    # The text of the model module in source order, the template's own macros expanded where they are called.  Three kinds of places
+    # matter: where a function of the generated class begins (`def name(`), where the lazily imported classes are imported (the loop
+    # over model.lazy_imports emits its element), and where a macro of a property template is expanded (the only text that can name a
+    # model class at run time).  Neither line distances nor the macro a loop stands in are looked at.
     top = list(tplq.frags(mt.tree.body))
-    defs = [(f.line + f.text[:m_.start()].count("\n"), m_.group(1)) for f in top if f.kind == "data"
-            for m_ in re.finditer(r"def (to_dict|to_multipart|from_dict)\(", f.text)]
-    lazy_loops = [f_.lineno for f_ in mt.tree.find_all(nodes.For) if expr_text(f_.iter).startswith("model.lazy_imports")]
-    rep.floor("model_functions", len(defs), 3)
-    for line, name in defs:
-        nxt = min([l for l, _ in defs if l > line] + [10 ** 9])
-        has = any(line <= l < nxt for l in lazy_loops) and any(line <= l <= line + 2 for l in lazy_loops)
-        rep.check(has, "R01.2", f"model.py.jinja::{name}::lazy-imports-first",
+    aliases = {n.target for n in mt.tree.find_all(nodes.Import)}
+
+    def expanded(frs: list[Any], depth: int = 0) -> list[Any]:
+        out_: list[Any] = []
+        for fr in frs:
+            own = [c_.node.name for c_ in ([fr.node] + list(fr.node.find_all(nodes.Call))) if isinstance(c_, nodes.Call)
+                   and isinstance(c_.node, nodes.Name) and c_.node.name in mt.macros] if fr.kind == "expr" else []
+            if own and depth < 3:
+                for mn in own:
+                    out_ += expanded(list(tplq.frags(mt.macros[mn].body)), depth + 1)
+            else:
+                out_.append(fr)
+        return out_
+
+    def is_lazy(fr: Any) -> bool:
+        return fr.kind == "expr" and bool(fr.loops) and _unparen(fr.loops[-1]).startswith("model.lazy_imports") and \
+            fr.text.startswith(fr.loops[-1] + "[*]")
+
+    def is_user(fr: Any) -> bool:
+        return fr.kind == "expr" and any(isinstance(c_, nodes.Call) and isinstance(c_.node, nodes.Getattr) and isinstance(c_.node.node, nodes.Name)
+                                         and c_.node.node.name in aliases for c_ in [fr.node] + list(fr.node.find_all(nodes.Call)))
+
+    stream = expanded(top)
+    events: list[tuple[str, str, int]] = []  # (def | class | lazy | user | text | other, name, line)
+    for fr in stream:
+        if fr.kind == "data":
+            marks = [(m_.start(), "def", m_.group(1)) for m_ in re.finditer(r"(?<!\w)def (\w+)\(", fr.text)] + \
+                    [(m_.start(), "class", "") for m_ in re.finditer(r"(?m)^class\s", fr.text)]
+            for off, kind, nm in sorted(marks):
+                events.append((kind, nm, fr.line + fr.text[:off].count("\n")))
+            if not marks and fr.text.strip():
+                events.append(("text", fr.text.strip(), fr.line))
+        else:
+            events.append(("lazy" if is_lazy(fr) else "user" if is_user(fr) else "other", "", fr.line))
+    starts = [i for i, ev in enumerate(events) if ev[0] in ("def", "class")]
+    n_fn = 0
+    for k, i in enumerate(starts):
+        if events[i][0] != "def":
+            continue
+        seg = events[i + 1:(starts[k + 1] if k + 1 < len(starts) else len(events))]
+        users = [j for j, ev in enumerate(seg) if ev[0] == "user"]
+        lazies = [j for j, ev in enumerate(seg) if ev[0] == "lazy"]
+        if not users:
+            continue
+        n_fn += 1
+        name = events[i][1]
+        rep.check(bool(lazies) and lazies[0] < users[0], "R01.2", f"model.py.jinja::{name}::lazy-imports-first",
                   f"{name} does not start by importing the lazily referenced model classes although the macros it inlines can emit "
-                  "isinstance(x, Model) / Model.from_dict(...) (NameError at call time)", where=f"{PKG}/templates/model.py.jinja:{line}",
-                  lhs=lazy_loops, rhs=f"a `for lazy_import in model.lazy_imports` loop right after def {name}")
-    tc = [f_ for f_ in mt.tree.find_all(nodes.For) if expr_text(f_.iter).startswith("model.lazy_imports")]
-    rep.check(any("TYPE_CHECKING" in "".join(getattr(c_, "data", "") for o in f_.find_all(nodes.Output) for c_ in o.nodes) for f_ in tc), "R01.2",
-              "model.py.jinja::type-checking-block", "lazy imports are not also emitted under TYPE_CHECKING", where=f"{PKG}/templates/model.py.jinja")
+                  "isinstance(x, Model) / Model.from_dict(...) (NameError at call time)", where=f"{PKG}/templates/model.py.jinja:{events[i][2]}",
+                  lhs=[ev[0] for ev in seg if ev[0] in ("lazy", "user")][:4], rhs=f"model.lazy_imports emitted in {name} before the first property macro")
+    rep.floor("model_functions", n_fn, 2)
+    # at module level the same imports stand under `if TYPE_CHECKING:` (imported unconditionally, two models that refer to each other
+    # cannot be imported): the text that precedes the first module-level lazy import ends with that line
+    head = events[:starts[0]] if starts else events
+    first = next((j for j, ev in enumerate(head) if ev[0] == "lazy"), None)
+    before = head[first - 1] if first else None
+    rep.check(before is not None and before[0] == "text" and before[1].endswith("if TYPE_CHECKING:"), "R01.2",
+              "model.py.jinja::type-checking-block", "lazy imports are not also emitted under TYPE_CHECKING", where=f"{PKG}/templates/model.py.jinja",
+              lhs=before[:2] if before else None, rhs="`if TYPE_CHECKING:` directly before the module-level lazy imports")
 
     # ---- R01.3 -----------------------------------------------------------------------------------------------------------------
-    ts = proto.methods.get("to_string")
-    calls = [c_ for c_ in ast.walk(ts.node) if isinstance(c_, ast.Call) and norm(c_.func) == "self.get_type_string"]
-    rep.check(bool(calls) and all(any(k.arg == "quoted" and isinstance(k.value, ast.Constant) and k.value.value is True for k in c_.keywords) for c_ in calls),
+    ts = ix.find_method(proto, "to_string")
+    rep.require(ts, "PropertyProtocol.to_string")
+    calls = [(g, c_) for g in region(ix, ts) for c_ in ast.walk(g.node) if isinstance(c_, ast.Call) and norm(c_.func) == "self.get_type_string"]
+
+    def _is_true(g: Any, c_: ast.Call) -> bool:
+        v = next((k.value for k in c_.keywords if k.arg == "quoted"), None)
+        if isinstance(v, ast.Name):
+            v = _once_bound(g.node).get(v.id, v)
+        return isinstance(v, ast.Constant) and v.value is True
+
+    rep.check(bool(calls) and all(_is_true(g, c_) for g, c_ in calls),
               "R01.3", "PropertyProtocol.to_string::quoted", "attribute declarations use unquoted type strings: a lazily imported model class in a "
               "class-level annotation raises NameError at import", where(ts, ts.node))
-    # the annotation of additional properties, however the template names it: the expression that asks the property for its type string
-    apt = [n for n in mt.tree.find_all(nodes.Assign) if "model.additional_properties.get_type_string(" in expr_text(n.node)] or \
-        [c_ for c_ in mt.tree.find_all(nodes.Call) if expr_text(c_.node) == "model.additional_properties.get_type_string"]
-    rep.check(bool(apt) and all("quoted=(not model.additional_properties.is_base_type)" in expr_text(getattr(a_, "node", a_) if isinstance(a_, nodes.Assign) else a_)
-                                for a_ in apt), "R01.3",
+    # the annotation of additional properties, however the template names it or its parts: every place that asks the additional
+    # property for its type string passes `quoted` = not a base type (or plainly true)
+    mdefs = _set_defs(mt.tree)
+    apt = [c_ for c_ in mt.tree.find_all(nodes.Call) if expr_text(_tsubst(c_.node, mdefs)) == "model.additional_properties.get_type_string"]
+    q_ok = {"(not model.additional_properties.is_base_type)", "True"}
+    rep.check(bool(apt) and all(any(k.key == "quoted" and expr_text(_tsubst(k.value, mdefs)) in q_ok for k in a_.kwargs) for a_ in apt), "R01.3",
               "model.py.jinja::additional_property_type::quoted", "the additional-properties annotation is not quoted for non-base types",
               where=f"{PKG}/templates/model.py.jinja")
-    mp = ix.cls("ModelProperty").methods.get("get_type_string")
-    def _quotes(fn: ast.AST) -> bool:
-        # an `if` on the parameter `quoted` whose body builds '<something>' (f-string that starts and ends with a single quote)
-        for i_ in ast.walk(fn):
-            if isinstance(i_, ast.If) and any(isinstance(n_, ast.Name) and n_.id == "quoted" for n_ in ast.walk(i_.test)):
-                for j in [x for b_ in i_.body for x in ast.walk(b_) if isinstance(x, ast.JoinedStr)]:
-                    v = j.values
-                    if (len(v) >= 3 and isinstance(v[0], ast.Constant) and v[0].value == "'" and isinstance(v[-1], ast.Constant)
-                            and v[-1].value == "'" and any(isinstance(x, ast.FormattedValue) for x in v)):
-                        return True
-        return False
-
-    rep.check(_quotes(mp.node), "R01.3", "ModelProperty.get_type_string::quotes-class-name",
+    # quoted=True puts the class name between quotes: on the paths of ModelProperty.get_type_string taken with quoted=True a text that begins
+    # and ends with a single quote around a computed part is built (f-string, str.format or concatenation with a lone quote), whatever the
+    # shape of the decision
+    mpc = ix.cls("ModelProperty")
+    mp = ix.find_method(mpc, "get_type_string")
+    rep.require(mp, "ModelProperty.get_type_string")
+    quoting = [s_ for s_ in sc.collect(mp, mpc, {"quoted": True})
+               if s_ == "'" or (len(s_) >= 3 and s_[0] == "'" and s_[-1] == "'" and ("\x00" in s_ or _FIELD.search(s_) or "%s" in s_))]
+    rep.check(bool(quoting), "R01.3", "ModelProperty.get_type_string::quotes-class-name",
               "quoted=True no longer quotes the class name", where(mp, mp.node))
 
     # ---- R01.4 -------------------------------------------------------------------------------------------------------------------
     # (loop variables are canonical: the variable of `for x in ITER` reads `ITER[*]`, see sa/jinja_canon.py)
+    # The class body declares its attributes in passes: loops that expand declare_property on their element, each under a condition on
+    # the element.  An attribute is declared without `= ...` exactly when it is required and has no default.  However many passes there
+    # are and however their conditions are written: every attribute falls into exactly one pass, no pass can hold both an attribute
+    # without and one with a default (within a pass the order is the list's), and no pass that can hold one with a default precedes
+    # a pass that can hold one without.  Conditions are compared as truth tables over their atoms, the element spelled `•`.
     decl = [f for f in top if f.kind == "expr" and f.loops and f.text.startswith(f"declare_property({f.loops[-1]}[*])")]
-    rep.check(len(decl) == 2, "R01.4", "model.py.jinja::two-declaration-loops", "expected two declaration passes", where=f"{PKG}/templates/model.py.jinja",
-              lhs=len(decl), rhs=2)
-    if len(decl) == 2:
-        a, b = sorted(decl, key=lambda f: f.line)
-        names_ = sorted(set(tplq.guard_atoms(a)) | set(tplq.guard_atoms(b)))
-        ok = bool(names_)
-        first_no_default = True
+    rep.check(bool(decl), "R01.4", "model.py.jinja::two-declaration-loops", "no declaration pass found in the class body", where=f"{PKG}/templates/model.py.jinja",
+              lhs=len(decl), rhs="at least one")
+    if decl:
+        def rel(p_: Any, atom: str) -> str:
+            return atom.replace(f"{p_.loops[-1]}[*]", "•")
+
+        names_ = sorted({rel(p_, a_) for p_ in decl for a_ in tplq.guard_atoms(p_)})
+        may: list[set[bool]] = [set() for _ in decl]  # per pass: can it hold an attribute without default (True) / with one (False)
+        partition = True
         for env in tplq.assignments(names_):
-            ha = tplq.guard_holds(a, {k: env[k] for k in tplq.guard_atoms(a)})
-            hb = tplq.guard_holds(b, {k: env[k] for k in tplq.guard_atoms(b)})
-            if ha == hb:
-                ok = False  # not complementary / not exhaustive
-            # the first pass must contain exactly the attributes that get no `= ...` : default is none and required
-            pv = f"{a.loops[-1]}[*]"
-            nd = (env.get(f"{pv}.default is none", False)) and env.get(f"{pv}.required", False)
-            if ha != nd:
-                first_no_default = False
-        same_dom = a.loops == b.loops == ("(model.required_properties + model.optional_properties)",)
-        rep.check(ok and first_no_default and same_dom, "R01.4", "model.py.jinja::declaration-order",
+            holds = [tplq.guard_holds(p_, {a_: env[rel(p_, a_)] for a_ in tplq.guard_atoms(p_)}) for p_ in decl]
+            if sum(holds) != 1:
+                partition = False  # an attribute declared twice or not at all
+            nd = env.get("•.default is none", False) and env.get("•.required", False)
+            for i_, h_ in enumerate(holds):
+                if h_:
+                    may[i_].add(nd)
+        pure = all(len(m_) == 1 for m_ in may)
+        kinds = [next(iter(m_)) for m_ in may if len(m_) == 1]
+        ordered = pure and kinds == sorted(kinds, reverse=True)  # every pass without defaults before every pass with defaults
+        same_dom = {_unparen(l_) for p_ in decl for l_ in p_.loops} == {"model.required_properties + model.optional_properties"} and \
+            all(len(p_.loops) == 1 for p_ in decl)
+        rep.check(partition and ordered and same_dom, "R01.4", "model.py.jinja::declaration-order",
                   "attributes without a default are not all declared before attributes with one (attrs raises 'No mandatory attributes allowed "
-                  "after an attribute with a default value' at import)", where=f"{PKG}/templates/model.py.jinja:{a.line}",
-                  lhs=[[g for g, _ in a.guards], [g for g, _ in b.guards]], rhs="first pass = (default is none and required), second = complement")
+                  "after an attribute with a default value' at import)", where=f"{PKG}/templates/model.py.jinja:{decl[0].line}",
+                  lhs=[[g for g, _ in p_.guards] for p_ in decl], rhs="passes partition the attributes; (default is none and required) first, the rest after")
     em = jx.templates.get("endpoint_macros.py.jinja")
+    rep.require(em is not None and "arguments" in em.macros, "endpoint_macros.py.jinja::arguments")
     arg = em.macros.get("arguments")
-    pos = [f for f in tplq.frags(arg.body) if f.kind == "expr" and f.loops == ("endpoint.path_parameters",) and f.text == "endpoint.path_parameters[*].to_string()"]
-    star = next((f for f in tplq.frags(arg.body) if f.kind == "data" and f.text.strip().startswith("*,")), None)
-    if pos and star is not None and pos[0].line < star.line:
+    afr = list(tplq.frags(arg.body))
+    pos = [i for i, f in enumerate(afr) if f.kind == "expr" and len(f.loops) == 1 and _unparen(f.loops[0]) == "endpoint.path_parameters"
+           and f.text == f"{f.loops[0]}[*].to_string()"]
+    star = next((i for i, f in enumerate(afr) if f.kind == "data" and f.text.strip().startswith("*,")), None)
+    if pos and star is not None and pos[0] < star:
         rep.fail("R01.4", "endpoint_macros.py.jinja::arguments::positional-defaults",
                  "path parameters are positional and emitted through to_string(), which carries the schema default: a defaulted path parameter "
-                 "before one without default is a SyntaxError in every function of the endpoint module", where=f"{PKG}/templates/{em.name}:{pos[0].line}",
+                 "before one without default is a SyntaxError in every function of the endpoint module", where=f"{PKG}/templates/{em.name}:{afr[pos[0]].line}",
                  lhs="to_string() before `*,`", rhs="no defaults, or defaulted ones last")
     # ---- R01.5 ---------------------------------------------------------------------------------------------------------------------
     rep.check(not ji.neutrality, "R01.5", "templates::lexically-neutral-blocks", f"some template block changes the lexical state: {list(ji.neutrality.values())[:2]}",
@@ -421,7 +465,7 @@ def run(rep: Report, ctx: Any) -> str:
     for name, st in sorted(ji.top_states.items()):
         n_py += 1
         rep.check(st in (LX.CODE, LX.INERT, LX.COMMENT), "R01.5", f"{name}::ends-in-code", f"template ends inside {st}", where=f"{PKG}/templates/{name}")
-    rep.floor("rendered_templates", n_py, 14)
+    rep.floor("rendered_templates", n_py, 8)
     for e in ji.emissions.values():
         if ("STR1" in e.kind) and re.search(r"\|(wordwrap|indent|center)\b", e.expr):
             rep.fail("R01.5", f"{e.template}::{e.macro}::{e.expr}", "a newline-inserting filter is applied inside a single-line string literal",
@@ -447,11 +491,454 @@ def run(rep: Report, ctx: Any) -> str:
     # ---- R01.8 --------------------------------------------------------------------------------------------------------------------------
     # two parameters of one operation with the same python name are a `duplicate argument` SyntaxError in every function of the endpoint
     # module: a rename is only final once the renamed name has been compared again
-    check_param_conflicts(rep, ctx, "R01.8")
+    _renames_rechecked(rep, ctx)
     # ---- R01.9 --------------------------------------------------------------------------------------------------------------------------
     _rebuilt_from_empty(rep, ctx)
     rep.not_decided += ["syntactic validity of the composition of fragments for every document; validity of pyproject.toml beyond its string contexts"]
     return LEVEL
+
+
+# ---- R01.8 ----------------------------------------------------------------------------------------------------------------------------
+def _renames_rechecked(rep: Report, ctx: Any) -> None:
+    """R01.8.  Two names that collide are told apart by renaming (set_python_name); the new name can collide again, so a rename is only
+    final once the new name has been compared.  For operation parameters (Endpoint._check_parameters_for_conflicts and the private
+    helpers it delegates to) the comparison is a further pass over all parameters, requested by recording the rename in a set that
+    the decision to stop looks at.  Stated without reference to the shape of the driver (tail recursion or loop; the pass in place or
+    in a helper):
+      * a *modification set* is a name whose content is added to somewhere in the region and that a test deciding the success return
+        reads (parameters of a helper are identified with the arguments passed for them);
+      * every rename is followed by an addition to a modification set on every path to the next parameter (or to the end of the pass);
+      * the success return is only reached through such a test, from which a further pass (a call of the function itself or the head of
+        an enclosing `while`) can also be reached, and only after a pass over the parameters.
+    For model attributes (every other function that calls set_python_name) the rename is followed on every path by an equality test
+    of the two python names, and an error can be returned."""
+    ix = ctx.py
+    cfgs: dict[str, Any] = {}
+    ep = ix.cls("Endpoint")
+    f = ix.find_method(ep, "_check_parameters_for_conflicts")
+    rep.require(f, "Endpoint._check_parameters_for_conflicts")
+    reg = region(ix, f)
+
+    def renames_of(g: Any) -> list[ast.stmt]:
+        return [s_ for s_ in cfg_of(g, cfgs).stmts() if stmt_calls(s_, "set_python_name")]
+
+    def helper_calls(g: Any) -> list[tuple[Any, ast.Call]]:
+        return [(h, c_) for c_ in ast.walk(g.node) if isinstance(c_, ast.Call) for h in _callees(ix, g, c_) if h in reg and h is not g]
+
+    def adders(g: Any, depth: int = 0) -> set[str]:
+        """names of g whose content grows in g or in a helper they are handed to"""
+        out = {r for r, _ in receivers(g.node, "add")} | {r for r, _ in receivers(g.node, "update")}
+        out |= {n.target.id for n in ast.walk(g.node) if isinstance(n, ast.AugAssign) and isinstance(n.target, ast.Name)}
+        if depth < 2:
+            for h, c_ in helper_calls(g):
+                inner = adders(h, depth + 1)
+                out |= {v.id for p_, v in _bind(h, c_).items() if p_ in inner and isinstance(v, ast.Name)}
+        return out
+
+    def reads(e: ast.AST, g: Any) -> set[str]:
+        once, out, frontier = _once_bound(g.node), set(), names_in(e)
+        for _ in range(3):
+            out |= frontier
+            frontier = {n for x in frontier if x in once for n in names_in(once[x])} - out
+        return out | frontier
+
+    # the driver: success returns, the tests they depend on, the sets those tests read
+    cfg = cfg_of(f, cfgs)
+    def arms(e: "ast.AST | None") -> list[ast.AST]:
+        return arms(e.body) + arms(e.orelse) if isinstance(e, ast.IfExp) else [e] if e is not None else []
+
+    success = [s_ for s_ in cfg.stmts() if isinstance(s_, ast.Return) and any(isinstance(a_, ast.Name) and a_.id == "self" for a_ in arms(s_.value))]
+    rep.require(success, "success return (`return self`) of _check_parameters_for_conflicts")
+    grow = adders(f)
+    # (statement, test): an `if` / `while` every path to a success return goes through, or the condition of a conditional success return
+    tests = [(t, t.test) for t in cfg.stmts() if isinstance(t, (ast.If, ast.While)) and reads(t.test, f) & grow
+             and any(cfg.is_dominated_by(s_, lambda n, t=t: n is t) for s_ in success)]
+    tests += [(s_, x.test) for s_ in success for x in ast.walk(s_) if isinstance(x, ast.IfExp) and reads(x.test, f) & grow]
+    mods: dict[str, set[str]] = {f.qual: {n for _, t in tests for n in reads(t, f) & grow}}
+    frontier = [f]
+    for _ in range(2):
+        nxt = []
+        for g in frontier:
+            for h, c_ in helper_calls(g):
+                got = {p_ for p_, v in _bind(h, c_).items() if isinstance(v, ast.Name) and v.id in mods.get(g.qual, set())} & adders(h)
+                if got - mods.get(h.qual, set()):
+                    mods.setdefault(h.qual, set()).update(got)
+                    nxt.append(h)
+        frontier = nxt
+
+    def records(g: Any) -> Any:
+        ms = mods.get(g.qual, set())
+
+        def pred(n: object) -> bool:
+            if not isinstance(n, ast.stmt):
+                return False
+            if isinstance(n, ast.AugAssign) and isinstance(n.target, ast.Name) and n.target.id in ms:
+                return True
+            own = list(walk_own(n))
+            return any(r in ms and any(c_ is x for x in own) for attr in ("add", "update") for r, c_ in receivers(n, attr))
+        return pred
+
+    def pass_loop(g: Any, st: ast.stmt) -> "ast.stmt | None":
+        """outermost `for` of g around st: the loop over the things being renamed"""
+        for lp in ast.walk(g.node):  # breadth-first: outer loops come first
+            if isinstance(lp, (ast.For, ast.AsyncFor)) and lp is not st and any(x is st for b_ in lp.body for x in ast.walk(b_)):
+                return lp
+        return None
+
+    n_ren = 0
+    loops: list[tuple[Any, ast.stmt]] = []
+    renaming = [g for g in reg if renames_of(g)]
+    for g in renaming:
+        cg = cfg_of(g, cfgs)
+        for s_ in renames_of(g):
+            n_ren += 1
+            lp = pass_loop(g, s_)
+            if lp is not None:
+                loops.append((g, lp))
+            ok = cg.every_path_passes(s_, lp if lp is not None else EXIT, records(g))
+            rep.check(ok, "R01.8", f"{short(g)}::rename->{anon(s_, local_names(g.node))[:60]}",
+                      "a parameter is renamed but the change is not recorded in the set of modified parameters on every path: no re-check runs",
+                      where(g, s_), lhs=norm(s_)[:80], rhs="followed by <modified set>.add on every path to the next iteration")
+    rep.floor("parameter_renames", n_ren, 2)
+    # loops of other region functions that rename through a helper called from their body
+    for g in reg:
+        for lp in [n for n in ast.walk(g.node) if isinstance(n, (ast.For, ast.AsyncFor))]:
+            if any(h in renaming for c_ in ast.walk(lp) if isinstance(c_, ast.Call) for h in _callees(ix, g, c_) if h in reg and h is not g):
+                loops.append((g, lp))
+
+    def reruns(t: ast.stmt) -> bool:
+        """from the deciding statement a further pass is reachable other than through a success return: the function calls itself, or
+        the statement stands in a `while` whose head is reached again"""
+        if isinstance(t, ast.Return):
+            return bool(stmt_calls(t, f.name))
+        r = cfg.reachable_from(t, avoid=lambda n: any(n is s_ for s_ in success if not stmt_calls(s_, f.name)))
+        again = any(isinstance(n, ast.stmt) and stmt_calls(n, f.name) for n in r)
+        looped = any(isinstance(n, ast.While) and n in r and any(x is t for x in ast.walk(n)) for n in ast.walk(f.node))
+        return again or looped
+
+    rep.check(any(reruns(t) for t, _ in tests), "R01.8", f"{short(f)}::re-run",
+              "the conflict check no longer re-runs itself after modifications", where(f, f.node),
+              lhs=[norm(t)[:80] for _, t in tests], rhs="a test on the set of modified parameters from which a further pass is reachable")
+
+    def visits(n: object, g: Any, depth: int = 0) -> bool:
+        if not isinstance(n, ast.stmt):
+            return False
+        if any(lg is g and lp is n for lg, lp in loops):
+            return True
+        if depth < 2:
+            for c_ in walk_own(n):
+                if isinstance(c_, ast.Call):
+                    for h in _callees(ix, g, c_):
+                        if h in reg and h is not g and cfg_of(h, cfgs).every_path_passes(ENTRY, EXIT, lambda m, h=h: visits(m, h, depth + 1)):
+                            return True
+        return False
+
+    for s_ in success:
+        rep.check(cfg.is_dominated_by(s_, lambda n: visits(n, f)), "R01.8", f"{short(f)}::success-return",
+                  "a success return is reachable without visiting the parameters (reserved names / collisions unchecked)", where(f, s_),
+                  lhs="return self", rhs="dominated by the loop over all parameters")
+
+    # naming conflict of model attributes: the raw-name fallback is followed by an equality re-check
+    n_attr = 0
+    for g in ix.all_functions:
+        if g in reg or g.name == "set_python_name" or g.parent is not None or not renames_of(g):
+            continue
+        n_attr += 1
+        cg = cfg_of(g, cfgs)
+
+        def compares(n: object) -> bool:
+            return isinstance(n, ast.stmt) and any(
+                isinstance(x, ast.Compare) and len(x.ops) == 1 and isinstance(x.ops[0], (ast.Eq, ast.NotEq)) and
+                norm(x.left).endswith(".python_name") and norm(x.comparators[0]).endswith(".python_name") for x in walk_own(n))
+
+        ok = all(cg.every_path_passes(s_, EXIT, compares) for s_ in renames_of(g)) and \
+            any(isinstance(r, ast.Return) and constructs_error(r.value) for r in ast.walk(g.node))
+        rep.check(ok, "R01.8", f"{short(g)}::re-check", "raw-name fallback is not followed by an equality test that returns an error",
+                  where(g, g.node), lhs=[norm(s_)[:60] for s_ in renames_of(g)], rhs="then a comparison of the two python names on every path, and an error return")
+    rep.floor("attribute_renames", n_attr, 1)
+
+
+# ---- text composed from literals and computed pieces (R01.1b) -------------------------------------------------------------------
+# A generated name such as `check_<x>` is written at several places of the generator (template text, an import string).  Where the
+# literal part ends and the computed part begins, and through how many locals / `set` variables / concatenations the text is put
+# together, is a matter of style: every site is therefore reduced to its *parts* - a sequence of ("lit", text) and ("expr", e) - with
+# locals that are bound once replaced by what they are bound to, and the computed part is compared as an expression of the object the
+# name belongs to (receiver spelled `self`; accessor methods that merely return an expression of `self` unfolded).
+
+def _merge(parts: list[tuple[str, Any]]) -> list[tuple[str, Any]]:
+    out: list[tuple[str, Any]] = []
+    for k, v in parts:
+        if k == "lit" and out and out[-1][0] == "lit":
+            out[-1] = ("lit", out[-1][1] + v)
+        elif not (k == "lit" and v == ""):
+            out.append((k, v))
+    return out
+
+
+def _once_bound(fn: ast.AST) -> dict[str, ast.AST]:
+    """locals of fn bound exactly once, by a plain assignment of a value: reading them is reading their definition"""
+    out = {}
+    for name, ds in Locals(fn).defs.items():
+        if len(ds) == 1 and ds[0][0] == "assign" and ds[0][2] is not None:
+            out[name] = ds[0][2]
+    return out
+
+
+def _py_parts(e: ast.AST, once: dict[str, ast.AST], depth: int = 0) -> list[tuple[str, Any]]:
+    """parts of a Python string expression: f-string, `+`, `"...".format(...)`, `"..." % ...`, a local bound once to any of these"""
+    if isinstance(e, ast.Constant) and isinstance(e.value, str):
+        return [("lit", e.value)]
+    if depth > 6:
+        return [("expr", e)]
+    if isinstance(e, ast.JoinedStr):
+        out: list[tuple[str, Any]] = []
+        for v in e.values:
+            if isinstance(v, ast.Constant):
+                out.append(("lit", str(v.value)))
+            elif isinstance(v, ast.FormattedValue) and v.conversion == -1 and v.format_spec is None:
+                out += _py_parts(v.value, once, depth + 1)
+            else:
+                out.append(("expr", v))
+        return out
+    if isinstance(e, ast.Name) and e.id in once:
+        return _py_parts(once[e.id], once, depth + 1)
+    if isinstance(e, ast.BinOp) and isinstance(e.op, ast.Add):
+        l, r = _py_parts(e.left, once, depth + 1), _py_parts(e.right, once, depth + 1)
+        if any(k == "lit" for k, _ in l + r):
+            return l + r
+    if isinstance(e, ast.Call) and isinstance(e.func, ast.Attribute) and e.func.attr == "format" and not any(
+            isinstance(a, ast.Starred) for a in e.args) and all(k.arg for k in e.keywords):
+        tpl = _merge(_py_parts(e.func.value, once, depth + 1))
+        if len(tpl) == 1 and tpl[0][0] == "lit":
+            got = _format_fields(tpl[0][1], list(e.args), {k.arg: k.value for k in e.keywords})
+            if got is not None:
+                return [p_ for k, v in got for p_ in ([("lit", v)] if k == "lit" else _py_parts(v, once, depth + 1))]
+    if isinstance(e, ast.BinOp) and isinstance(e.op, ast.Mod):
+        tpl = _merge(_py_parts(e.left, once, depth + 1))
+        args = list(e.right.elts) if isinstance(e.right, ast.Tuple) else [e.right]
+        if len(tpl) == 1 and tpl[0][0] == "lit" and "%%" not in tpl[0][1]:
+            chunks = tpl[0][1].split("%s")
+            if len(chunks) == len(args) + 1 and not any("%" in c for c in chunks):
+                out = [("lit", chunks[0])]
+                for a, c in zip(args, chunks[1:]):
+                    out += _py_parts(a, once, depth + 1) + [("lit", c)]
+                return out
+    return [("expr", e)]
+
+
+def _format_fields(tpl: str, args: list[ast.AST], kwargs: dict[str, ast.AST]) -> "list[tuple[str, Any]] | None":
+    """("lit", text) / ("expr", argument) sequence of `tpl.format(*args, **kwargs)`; None when a field is more than a plain reference"""
+    import string
+
+    out: list[tuple[str, Any]] = []
+    auto = 0
+    try:
+        fields = list(string.Formatter().parse(tpl))
+    except ValueError:
+        return None
+    for text, name, spec, conv in fields:
+        out.append(("lit", text))
+        if name is None:
+            continue
+        if spec or conv:
+            return None
+        if name == "":
+            name, auto = str(auto), auto + 1
+        arg = args[int(name)] if name.isdigit() and int(name) < len(args) else kwargs.get(name)
+        if arg is None:
+            return None
+        out.append(("expr", arg))
+    return out
+
+
+class _Unfold(ast.NodeTransformer):
+    """locals bound once -> their definition; `self.m()` / `self.p` where m / p is a method / property of the class whose body is a
+    single `return <expression of self>` -> that expression"""
+
+    def __init__(self, ix: Any, cls: Any, once: dict[str, ast.AST], depth: int = 0) -> None:
+        self.ix, self.cls, self.once, self.depth = ix, cls, once, depth
+
+    def _accessor(self, attr: str, kind: tuple[str, ...]) -> "ast.AST | None":
+        m = self.ix.find_method(self.cls, attr) if self.cls is not None else None
+        if m is None or m.kind not in kind or self.depth > 3:
+            return None
+        body = [st for st in m.node.body if not (isinstance(st, ast.Expr) and isinstance(st.value, ast.Constant))]
+        params = {a.arg for a in m.params} - {"self"}
+        if len(body) != 1 or not isinstance(body[0], ast.Return) or body[0].value is None or m.node.args.vararg or m.node.args.kwarg:
+            return None
+        if any(isinstance(n, ast.Name) and n.id in params for n in ast.walk(body[0].value)):
+            return None
+        import copy
+
+        return _Unfold(self.ix, self.cls, {}, self.depth + 1).visit(copy.deepcopy(body[0].value))
+
+    def visit_Name(self, n: ast.Name) -> ast.AST:
+        import copy
+
+        if isinstance(n.ctx, ast.Load) and n.id in self.once and self.depth <= 3:
+            return _Unfold(self.ix, self.cls, {k: v for k, v in self.once.items() if k != n.id}, self.depth + 1).visit(copy.deepcopy(self.once[n.id]))
+        return n
+
+    def visit_Call(self, n: ast.Call) -> ast.AST:
+        if not n.args and not n.keywords and isinstance(n.func, ast.Attribute) and isinstance(n.func.value, ast.Name) and n.func.value.id == "self":
+            got = self._accessor(n.func.attr, ("method",))
+            if got is not None:
+                return got
+        return self.generic_visit(n)
+
+    def visit_Attribute(self, n: ast.Attribute) -> ast.AST:
+        if isinstance(n.value, ast.Name) and n.value.id == "self" and isinstance(n.ctx, ast.Load):
+            got = self._accessor(n.attr, ("property",))
+            if got is not None:
+                return got
+        return self.generic_visit(n)
+
+
+def _canon_py(e: ast.AST, ix: Any, cls: Any, once: dict[str, ast.AST]) -> str:
+    import copy
+
+    return ast.unparse(ast.fix_missing_locations(_Unfold(ix, cls, once).visit(copy.deepcopy(e))))
+
+
+def _set_defs(tree: nodes.Template) -> dict[str, list[nodes.Node]]:
+    """template-local name (canonical, see sa/jinja_canon.py) -> the expressions it is `set` to"""
+    out: dict[str, list[nodes.Node]] = {}
+    for a in tree.find_all(nodes.Assign):
+        if isinstance(a.target, nodes.Name):
+            out.setdefault(a.target.name, []).append(a.node)
+    for a in tree.find_all(nodes.AssignBlock):
+        if isinstance(a.target, nodes.Name):
+            out.setdefault(a.target.name, []).append(a)  # a block: never an expression
+    return out
+
+
+def _tsubst(n: nodes.Node, defs: dict[str, list[nodes.Node]], depth: int = 0) -> nodes.Node:
+    """copy of a template expression in which every variable that is `set` exactly once (to an expression) is replaced by its
+    definition: the expression in terms of render arguments, macro parameters and loop variables"""
+    import copy
+
+    if isinstance(n, nodes.Name) and depth < 6:
+        ds = defs.get(n.name, [])
+        if len(ds) == 1 and isinstance(ds[0], nodes.Expr):
+            return _tsubst(ds[0], defs, depth + 1)
+    m = copy.copy(n)
+    for fld, v in n.iter_fields():
+        if isinstance(v, nodes.Node):
+            setattr(m, fld, _tsubst(v, defs, depth))
+        elif isinstance(v, list):
+            setattr(m, fld, [_tsubst(x, defs, depth) if isinstance(x, nodes.Node) else x for x in v])
+    return m
+
+
+def _tpl_expr_parts(n: nodes.Node) -> list[tuple[str, Any]]:
+    """parts of an (already substituted) template output expression: string constants joined by `~` / `+`"""
+    if isinstance(n, nodes.Const) and isinstance(n.value, str):
+        return [("lit", n.value)]
+    if isinstance(n, nodes.TemplateData):
+        return [("lit", n.data)]
+    if isinstance(n, nodes.Concat):
+        return [p_ for x in n.nodes for p_ in _tpl_expr_parts(x)]
+    if isinstance(n, nodes.Add):
+        l, r = _tpl_expr_parts(n.left), _tpl_expr_parts(n.right)
+        if any(k == "lit" for k, _ in l + r):
+            return l + r
+    return [("expr", n)]
+
+
+def _tpl_parts(body: list[nodes.Node], defs: dict[str, list[nodes.Node]]) -> list[tuple[str, Any]]:
+    """the text a template body emits, in source order (branches and loop bodies one after the other)"""
+    out: list[tuple[str, Any]] = []
+    for fr in tplq.frags(body):
+        out += [("lit", fr.text)] if fr.kind == "data" else _tpl_expr_parts(_tsubst(fr.node, defs))
+    return _merge(out)
+
+
+def _canon_tpl(n: nodes.Node, ix: Any, cls: Any) -> str:
+    """a template expression as an expression of the one object it is computed from (spelled `self`), accessors unfolded like on the
+    Python side; its own text when it is computed from several objects or is not also a Python expression"""
+    roots = sorted({x.name for x in n.find_all(nodes.Name)} | ({n.name} if isinstance(n, nodes.Name) else set()))
+    text = expr_text(n)
+    if len(roots) != 1:
+        return text
+    m = _tsubst(n, {roots[0]: [nodes.Name("self", "load")]})
+    try:
+        tree = ast.parse(expr_text(m), mode="eval")
+    except SyntaxError:
+        return text
+    return _canon_py(tree.body, ix, cls, {})
+
+
+_HELPER = re.compile(r"(?<![\w.])check_$")
+
+
+def _check_helper_name(rep: Report, ctx: Any) -> None:
+    """R01.1b.  The module of a literal enum defines `check_<x>`; every module that uses the enum imports `check_<y>` and calls
+    `check_<z>`.  x, y and z are computed at three places of the generator, from the same LiteralEnumProperty: they must be the same
+    expression of it (ImportError / NameError otherwise, for the names on which two different computations disagree), and the module
+    the helper is imported from must be the module the enum is written to."""
+    ix, jx = ctx.py, ctx.jinja
+    le = ix.cls("LiteralEnumProperty")
+    gi = ix.find_method(le, "get_imports")
+    rep.require(gi, "LiteralEnumProperty.get_imports")
+    # import site(s): import statements composed in get_imports (or a private helper of it) that name `check_` + something
+    imp: list[str] = []
+    mods: list[str] = []
+    for g in region(ix, gi):
+        once = _once_bound(g.node)
+        inner = {id(x) for n in ast.walk(g.node) if _stringish(n) for x in ast.walk(n) if x is not n}
+        for n in ast.walk(g.node):
+            if not _stringish(n) or id(n) in inner:
+                continue
+            parts = _merge(_py_parts(n, once))
+            if not _IMPORT_LINE.match("".join(v if k == "lit" else "H" for k, v in parts)):
+                continue
+            names_at = [i for i, (k, v) in enumerate(parts) if k == "lit" and _HELPER.search(v) and i + 1 < len(parts)]
+            for i in names_at:
+                imp.append(_canon_py(parts[i + 1][1], ix, le, once))
+            if names_at:
+                mods += [_canon_py(parts[i + 1][1], ix, le, once) for i, (k, v) in enumerate(parts)
+                         if k == "lit" and v.endswith("models.") and i + 1 < len(parts)]
+    # definition and use sites: template text `def check_` + expression / `check_` + expression
+    dfn: list[str] = []
+    use: list[str] = []
+    for name, ti in sorted(jx.templates.items()):
+        defs = _set_defs(ti.tree)
+        for body in [ti.tree.body] + [m.body for m in ti.macros.values()]:
+            parts = _tpl_parts(body, defs)
+            for i, (k, v) in enumerate(parts):
+                if k == "lit" and _HELPER.search(v) and i + 1 < len(parts):
+                    (dfn if re.search(r"(?<!\w)def\s+check_$", v) else use).append(_canon_tpl(parts[i + 1][1], ix, le))
+    rep.require(imp or dfn or use, "a site that defines, imports or calls a check_<name> helper")
+    same = len(set(imp) | set(dfn) | set(use)) == 1
+    rep.check(same and bool(dfn) and bool(imp), "R01.1b", "literal-enum::check-helper-name",
+              f"the check_ helper is not named by one and the same expression of the enum where it is defined ({sorted(set(dfn))}), imported "
+              f"({sorted(set(imp))}) and called ({sorted(set(use))}): ImportError / NameError for class names on which the computations differ",
+              where(gi, gi.node), lhs=[sorted(set(dfn)), sorted(set(imp)), sorted(set(use))], rhs="one expression at all three")
+    # module of the import = module the file is written to
+    rep.check(set(mods) == {"self.class_info.module_name"}, "R01.1b", "literal-enum::import-module", "helper imported from another module than the enum",
+              where(gi, gi.node), lhs=sorted(set(mods)), rhs=["self.class_info.module_name"])
+
+
+def _unparen(t: str) -> str:
+    """text of an expression without redundant outer parentheses (a `set` variable reads as its parenthesised definition)"""
+    t = t.strip()
+    while t.startswith("(") and t.endswith(")"):
+        depth = 0
+        for i, ch in enumerate(t):
+            depth += ch == "("
+            depth -= ch == ")"
+            if depth == 0:
+                break
+        if i != len(t) - 1:
+            break
+        t = t[1:-1].strip()
+    return t
+
+
+def _stringish(n: ast.AST) -> bool:
+    return isinstance(n, ast.JoinedStr) or (isinstance(n, ast.BinOp) and isinstance(n.op, (ast.Add, ast.Mod))) or \
+        (isinstance(n, ast.Call) and isinstance(n.func, ast.Attribute) and n.func.attr == "format") or \
+        (isinstance(n, ast.Constant) and isinstance(n.value, str))
 
 
 _CREATES = {"write_text", "write_bytes", "open-w", "touch", "mkdir", "makedirs"}
@@ -462,16 +949,89 @@ def _rebuilt_from_empty(rep: Report, ctx: Any) -> None:
     the new run; a file whose name comes from the document is only replaced when the new document yields the same name.  A module left
     over from an earlier document imports model modules that the current run did not write (ModuleNotFoundError).  Necessary condition:
     whatever directory receives document-named entries is removed earlier in the same run, on every path that reaches the write.
-    Paths are the abstract interpreter's string structure of the operand (<root> + literal text + holes), so neither the spelling of a
-    local nor the function that finally performs the write matters: a write in a helper is followed to the helper's call sites."""
+    Paths are the abstract interpreter's string structure of the operand (<root> + literal text + holes), so the spelling of a local does
+    not matter; and neither does the function that finally performs the effect: when the path operand of a write / mkdir / rmtree is
+    (composed from) a parameter of the function it stands in, the effect is an effect of each call of that function, on the path the
+    call passes (`self._render_to(tag_dir / "__init__.py", ...)` writes that file, not the union of everything the helper ever writes).
+    An effect therefore has a *chain* of places - the call in the helper, the call of the helper, ... - and its path is evaluated at the
+    outermost one; a removal covers a write when, at some level, it comes first on every path in the same function and calling context."""
     ix = ctx.py
     it, _ = ctx.flow
     cfgs: dict[str, Any] = {}
-    effs = []
+    once_of: dict[str, dict[str, ast.AST]] = {}
+    sites_of: dict[str, list[tuple[Any, ast.Call]]] = {}
+
+    def call_sites(g: Any) -> list[tuple[Any, ast.Call]]:
+        if g.qual not in sites_of:
+            sites_of[g.qual] = [(h, c_) for h in ix.all_functions if h is not g for c_ in ast.walk(h.node)
+                                if isinstance(c_, ast.Call) and g in _callees(ix, h, c_)]
+        return sites_of[g.qual]
+
+    def once(g: Any) -> dict[str, ast.AST]:
+        if g.qual not in once_of:
+            once_of[g.qual] = _once_bound(g.node)
+        return once_of[g.qual]
+
+    def free_params(g: Any) -> set[str]:
+        bound = set(Locals(g.node).defs)
+        return {a.arg for a in g.params if a.arg not in ("self", "cls")} - bound
+
+    def uses(e: ast.AST, g: Any, params: set[str], depth: int = 0) -> set[str]:
+        out: set[str] = set()
+        for n in ast.walk(e):
+            if isinstance(n, ast.Name):
+                if n.id in params:
+                    out.add(n.id)
+                elif n.id in once(g) and depth < 4:
+                    out |= uses(once(g)[n.id], g, params, depth + 1)
+        return out
+
+    def rewrite(e: ast.AST, g: Any, params: set[str], binding: dict[str, ast.AST], depth: int = 0) -> "ast.AST | None":
+        """the path expression e of g in terms of a call of g: parameters are the call's arguments (the caller's own nodes, so that the
+        interpreter's values for them are found), locals bound once are their definitions; None when that cannot be expressed"""
+        if not uses(e, g, params):
+            return e
+        if isinstance(e, ast.Name):
+            if e.id in params:
+                return binding.get(e.id)
+            return rewrite(once(g)[e.id], g, params, binding, depth + 1) if depth < 4 else None
+        if isinstance(e, ast.BinOp) and isinstance(e.op, ast.Div):
+            l, r = rewrite(e.left, g, params, binding, depth), rewrite(e.right, g, params, binding, depth)
+            return None if l is None or r is None else ast.copy_location(ast.BinOp(left=l, op=e.op, right=r), e)
+        if isinstance(e, ast.JoinedStr):
+            vals = [rewrite(v, g, params, binding, depth) for v in e.values]
+            return None if any(v is None for v in vals) else ast.copy_location(ast.JoinedStr(values=vals), e)
+        if isinstance(e, ast.FormattedValue):
+            v = rewrite(e.value, g, params, binding, depth)
+            return None if v is None else ast.copy_location(ast.FormattedValue(value=v, conversion=e.conversion, format_spec=e.format_spec), e)
+        return None
+
+    def on_every_path(g: Any, node: ast.AST) -> bool:
+        st = stmt_of(g.node, node)
+        return st is not None and cfg_of(g, cfgs).every_path_passes(ENTRY, EXIT, lambda m: m is st)
+
+    def lift(g: Any, node: ast.AST, target: "ast.AST | None", must: bool, depth: int = 0) -> list[tuple[tuple, Any]]:
+        """[(chain, value of the path)] of the effect that `node` of g performs on `target`"""
+        params = free_params(g)
+        if target is not None and depth < 3 and uses(target, g, params) and (not must or on_every_path(g, node)):
+            out: list[tuple[tuple, Any]] = []
+            sites = call_sites(g)
+            for h, c_ in sites:
+                t2 = rewrite(target, g, params, _bind(g, c_))
+                if t2 is None:
+                    break
+                out += [(((g, node), *chain), av) for chain, av in lift(h, c_, t2, must, depth + 1)]
+            else:
+                if sites:
+                    return out
+        return [(((g, node),), operand_av(it, target))]
+
+    effs: list[tuple[Any, tuple, Any]] = []  # (effect, chain, path value)
     for e in effect_sites(ix):
-        av = it.node_av.get(id(e.target)) if e.target is not None else None
-        if av is not None and "Path" in av.types and av.alts:
-            effs.append((e, av))
+        if e.what == "rmtree" or e.what in _CREATES:
+            for chain, av in lift(e.func, e.node, e.target, e.what == "rmtree"):
+                if av is not None and "Path" in av.types and av.alts:
+                    effs.append((e, chain, av))
 
     def split(alt: tuple) -> "tuple[Any, str, bool]":
         """(root, literal path up to the first document-dependent component, has such a component)"""
@@ -483,45 +1043,56 @@ def _rebuilt_from_empty(rep: Report, ctx: Any) -> None:
             text += p_.text
         return root, text, False
 
-    removals: list[tuple[Any, Any, str]] = []  # (effect, root, directory)
-    for e, av in effs:
+    removals: list[tuple[tuple, Any, str]] = []  # (chain, root, directory)
+    for e, chain, av in effs:
         if e.what == "rmtree":
             parts = [split(a) for a in av.alts]
             if len(parts) == 1 and not parts[0][2]:
-                removals.append((e, parts[0][0], parts[0][1].rstrip("/")))
+                removals.append((chain, parts[0][0], parts[0][1].rstrip("/")))
 
     def under(d: str, top: str) -> bool:
         return d == top or d.startswith(top + "/")
 
-    def resets(n: object, g: Any, root: Any, d: str, depth: int = 0) -> bool:
+    def same_context(outer: tuple, cx: tuple) -> bool:
+        """a removal whose path was decided at this level (no outer places) holds in every calling context; one that was attributed to
+        callers holds in the context it was attributed to"""
+        return not outer or (len(outer) == len(cx) and all(a[1] is b[1] for a, b in zip(outer, cx)))
+
+    def resets(n: object, g: Any, root: Any, d: str, cx: tuple, depth: int = 0) -> bool:
         """statement n of g removes a directory that contains d: by itself, or by calling a helper every path of which does"""
         if not isinstance(n, ast.stmt):
             return False
         own = list(walk_own(n))
-        if any(e.func is g and r == root and under(d, top) and any(x is e.node for x in own) for e, r, top in removals):
-            return True
+        for chain, r, top in removals:
+            if r == root and under(d, top):
+                for j, (rg, rnode) in enumerate(chain):
+                    if rg is g and any(x is rnode for x in own) and same_context(chain[j + 1:], cx):
+                        return True
         if depth < 2:
             for c_ in own:
                 if isinstance(c_, ast.Call):
                     for h in _callees(ix, g, c_):
                         ch = cfg_of(h, cfgs)
-                        if ch.every_path_passes(ENTRY, EXIT, lambda m, h=h: resets(m, h, root, d, depth + 1)):
+                        if ch.every_path_passes(ENTRY, EXIT, lambda m, h=h: resets(m, h, root, d, (), depth + 1)):
                             return True
         return False
 
-    def covered(g: Any, node: ast.AST, root: Any, d: str, depth: int = 0) -> bool:
+    def site_covered(g: Any, node: ast.AST, root: Any, d: str, cx: tuple, depth: int = 0) -> bool:
         st = stmt_of(g.node, node)
         if st is None:
             return False
-        if cfg_of(g, cfgs).is_dominated_by(st, lambda m: resets(m, g, root, d)):
+        if cfg_of(g, cfgs).is_dominated_by(st, lambda m: resets(m, g, root, d, cx)):
             return True
-        if depth >= 3:
+        if cx or depth >= 3:
             return False
-        sites = [(h, c_) for h in ix.all_functions if h is not g for c_ in ast.walk(h.node) if isinstance(c_, ast.Call) and g in _callees(ix, h, c_)]
-        return bool(sites) and all(covered(h, c_, root, d, depth + 1) for h, c_ in sites)
+        sites = call_sites(g)
+        return bool(sites) and all(site_covered(h, c_, root, d, (), depth + 1) for h, c_ in sites)
+
+    def covered(chain: tuple, root: Any, d: str) -> bool:
+        return any(site_covered(g, node, root, d, chain[i + 1:]) for i, (g, node) in enumerate(chain))
 
     by_dir: dict[str, list[tuple[Any, bool]]] = {}
-    for e, av in effs:
+    for e, chain, av in effs:
         if e.what not in _CREATES:
             continue
         for alt in av.alts:
@@ -529,8 +1100,8 @@ def _rebuilt_from_empty(rep: Report, ctx: Any) -> None:
             if not dyn:
                 continue
             d = text.rsplit("/", 1)[0]  # the directory in which the first document-dependent component is created
-            by_dir.setdefault(d, []).append((e, covered(e.func, e.node, root, d)))
-    rep.floor("document_named_directories", len(by_dir), 2)
+            by_dir.setdefault(d, []).append((e, covered(chain, root, d)))
+    rep.floor("document_named_directories", len(by_dir), 1)
     for d, sites in sorted(by_dir.items()):
         bad = sorted({f"{short(e.func)}::{e.what}" for e, ok in sites if not ok})
         e0 = next((e for e, ok in sites if not ok), sites[0][0])
@@ -539,6 +1110,23 @@ def _rebuilt_from_empty(rep: Report, ctx: Any) -> None:
                   f"removed earlier in the run on every path ({bad}): on regeneration, modules of an earlier document survive and import "
                   "model modules that no longer exist (ModuleNotFoundError)", e0.where,
                   lhs=sorted({f"{short(e.func)}::{e.what}" for e, _ in sites}), rhs=f"each dominated by rmtree of {d or '/'} or of a directory above it")
+
+
+def _bind(g: Any, call: ast.Call) -> dict[str, ast.AST]:
+    """parameter name of g -> argument expression at `call` (parameters left to their default are absent)"""
+    a = g.node.args
+    pos = [x.arg for x in [*a.posonlyargs, *a.args]]
+    if pos and pos[0] in ("self", "cls") and g.kind != "staticmethod" and g.cls is not None:
+        pos = pos[1:]
+    out: dict[str, ast.AST] = {}
+    for p_, v in zip(pos, call.args):
+        if isinstance(v, ast.Starred):
+            break
+        out[p_] = v
+    for k in call.keywords:
+        if k.arg is not None:
+            out[k.arg] = k.value
+    return out
 
 
 def _callees(ix: Any, g: Any, c: ast.Call) -> list[Any]:
@@ -563,7 +1151,3 @@ def _cv(ix: Any, c: Any, name: str) -> tuple[Any, Any]:
     if r is None:
         return (c.module, ast.Constant(value=None))
     return (r[0].module, r[1])
-
-
-def _pairs(xs: list[Any]) -> list[tuple[Any, Any]]:
-    return list(zip(xs, xs[1:]))
